@@ -123,6 +123,8 @@ pub struct LabelRec {
     pub file: String,
     pub start: usize,
     pub end: usize,
+    #[serde(default)]
+    pub message: String,
     pub text_len: Option<usize>,
     pub on_char_boundary: Option<bool>,
 }
@@ -152,6 +154,51 @@ pub struct Obs {
     pub faults_fired: Vec<(usize, String)>,
     pub source_orders: Vec<Vec<String>>,
     pub dir_orders: Vec<Vec<String>>,
+    /// what the command physically printed (command-line entries only)
+    pub printed: Printed,
+}
+
+#[derive(Clone, Debug, Default, Serialize, Deserialize, PartialEq)]
+pub struct Printed {
+    /// stdout has a line that is exactly "OK"
+    pub ok_line: bool,
+    /// codes of the `error[Pnnnn]` headers on stderr, in order
+    pub codes: Vec<String>,
+    /// the `file:line:col` location lines of the rendered diagnostics, in order
+    pub locations: Vec<String>,
+    /// (Ln, Col) of every token line on stdout (tokenize), in order
+    pub token_positions: Vec<(u32, u32)>,
+    pub stdout_lines: usize,
+    pub stdout_hash: u64,
+}
+
+pub fn parse_printed(stdout: &str, stderr: &str) -> Printed {
+    let err = crate::seam::strip_ansi(stderr);
+    let mut p = Printed { stdout_lines: stdout.lines().count(), stdout_hash: crate::prng::hash_str(stdout), ..Printed::default() };
+    for line in stdout.lines() {
+        if line.trim_end() == "OK" {
+            p.ok_line = true;
+        }
+        if let Some(at) = line.rfind(", At: Ln ") {
+            let rest = &line[at + 9..];
+            if let Some((l, c)) = rest.split_once(",Col ") {
+                if let (Ok(l), Ok(c)) = (l.trim().parse(), c.trim().parse()) {
+                    p.token_positions.push((l, c));
+                }
+            }
+        }
+    }
+    for line in err.lines() {
+        if let Some(rest) = line.strip_prefix("error[") {
+            if let Some(end) = rest.find(']') {
+                p.codes.push(rest[..end].to_string());
+            }
+        }
+        if let Some(pos) = line.find("┌─ ") {
+            p.locations.push(line[pos + "┌─ ".len()..].trim().to_string());
+        }
+    }
+    p
 }
 
 impl Obs {
@@ -203,7 +250,7 @@ pub fn map_offset(world: &World, files: &[FileSpec], file: &str, offset: usize) 
 }
 
 fn convert_label(l: &ironplcc::verif::LabelRecord) -> LabelRec {
-    LabelRec { file: l.file.clone(), start: l.start, end: l.end, text_len: l.text_len, on_char_boundary: l.on_char_boundary }
+    LabelRec { file: l.file.clone(), start: l.start, end: l.end, message: l.message.clone(), text_len: l.text_len, on_char_boundary: l.on_char_boundary }
 }
 
 fn convert_log(log: &HookLog) -> Vec<DiagRec> {
@@ -228,6 +275,7 @@ fn api_diag(d: &ironplc_dsl::diagnostic::Diagnostic, project: &FileBackedProject
             file: l.file_id.to_string().replace(root, "<root>"),
             start: l.location.start,
             end: l.location.end,
+            message: l.message.replace(root, "<root>"),
             text_len: text.map(|t| t.len()),
             on_char_boundary: text.map(|t| {
                 l.location.start <= l.location.end && t.is_char_boundary(l.location.start) && t.is_char_boundary(l.location.end)
@@ -278,6 +326,7 @@ pub fn exec_variant(world: &World, v: &Variant) -> Obs {
     let texts: Vec<(PathBuf, String)> = v.files.iter().map(|f| (r.join("ws").join(&f.name), file_text(world, f))).collect();
     let root_str = r.to_string_lossy().to_string();
 
+    crate::seam::capture_begin();
     let result = run_simulated_process(v.hash_seed, Some(hooks.clone()), move || match entry {
         Entry::Check => (ironplcc::cli::check(&args, false), vec![]),
         Entry::Echo => (ironplcc::cli::echo(&args, false), vec![]),
@@ -305,6 +354,8 @@ pub fn exec_variant(world: &World, v: &Variant) -> Obs {
             }
         }
     });
+    let (stdout, stderr) = crate::seam::capture_end();
+    let printed = parse_printed(&stdout, &stderr);
     let log = hooks.take_log();
     let (outcome, api_diags) = match result {
         Ok((Ok(()), d)) => (Outcome::Ok, d),
@@ -321,5 +372,6 @@ pub fn exec_variant(world: &World, v: &Variant) -> Obs {
         faults_fired: log.faults_fired,
         source_orders: log.source_orders,
         dir_orders: log.dir_orders,
+        printed,
     }
 }
